@@ -392,12 +392,26 @@ def rule_cleanup(F, R, which=("G1", "G2", "G3", "G4", "O1")):
     def is_reader(t):
         return any(_norm(n) in rn for n in call_names(t))
 
+    # a listing may be delegated to a helper of the object-store server that calls Service::list itself
+    helper_prefix = {}
+    for hp, hb0 in F.bodies.items():
+        if "cloud::server" not in hp or hb0["kind"] not in ("Fn", "AssocFn") or hp == subj:
+            continue
+        hb = F.real_body(hp) or hb0
+        if hb is b:
+            continue
+        hc = cfg_of(hb)
+        hl = calls_matching(hc, re.escape(SERVICE) + "::list$")
+        if hl:
+            hfl = flow_of(hb)
+            helper_prefix[_norm(hp)] = sorted({x for (_i, t_) in hl for x in const_strs(hfl.slice_operand(t_["args"][1]), F)})
+
     def is_list(t):
-        return (SERVICE + "::list") in call_names(t)
+        return (SERVICE + "::list") in call_names(t) or any(_norm(n) in helper_prefix for n in call_names(t))
 
     stop = lambda t: is_reader(t) or is_list(t)
     dels = calls_matching(c, re.escape(SERVICE) + "::del$")
-    lists = calls_matching(c, re.escape(SERVICE) + "::list$")
+    lists = [(i, t) for i, t in c.calls() if is_list(t)]
     reads = [(i, t) for i, t in c.calls() if is_reader(t)]
     R.floor("G", "Service::del sites in cleanup", len(dels), 3)
     R.floor("G", "Service::list sites in cleanup", len(lists), 2)
@@ -407,6 +421,9 @@ def rule_cleanup(F, R, which=("G1", "G2", "G3", "G4", "O1")):
 
     def list_prefix(i):
         t = c.term(i)
+        for n in call_names(t):
+            if _norm(n) in helper_prefix:
+                return helper_prefix[_norm(n)]
         return sorted(const_strs(fl.slice_operand(t["args"][1]), F))
 
     # classify each del by the roots of its name argument and of its guards
@@ -570,7 +587,11 @@ def rule_cleanup(F, R, which=("G1", "G2", "G3", "G4", "O1")):
             sel = False
             badsel = None
             for g in d["guards"]:
-                for r in g["slice"].roots:
+                roots_ = set(g["slice"].roots)
+                # `.filter(|..| creation < threshold).map(..)`: the selection is the filter's predicate
+                for (_pb, pop) in sorted(g["slice"].predicates.items()):
+                    roots_ |= set(fl.slice_operand(pop, stop=stop).roots)
+                for r in sorted(roots_, key=repr):
                     if r[0] == "closure" and r[1] in F.bodies:
                         res = _age_closure_ok(F.bodies[r[1]])
                         if res is True:
@@ -634,6 +655,12 @@ def _callee_consts(F, t):
                     for a in tt["args"]:
                         if "k" in a:
                             out.add(a["k"].get("repr", ""))
+                # the template of a format!() is a byte-string constant assigned in a statement
+                for st in bl["s"]:
+                    if st["k"] == "assign" and st["r"].get("k") == "use" and "k" in st["r"].get("o", {}):
+                        rp = st["r"]["o"]["k"].get("repr", "")
+                        if rp.startswith('b"'):
+                            out.add(rp)
     return out
 
 
@@ -651,7 +678,7 @@ def _name_helper_prefix(F, c, d):
     pref = set()
     for bb, t in d["name_slice"].calls.items():
         for k in _callee_consts(F, t):
-            m = re.search(r'"([vs])-', k)
+            m = re.search(r'^"([vs])-', k) or re.search(r'^b"(?:\\x[0-9a-f]{2})?([vs])-', k)
             if m:
                 pref.add(m.group(1))
     return pref
@@ -769,6 +796,30 @@ def _start_origins(c, fl, d):
 # ---------------------------------------------------------------------------------------
 # K6: only a committed child is served
 
+def _k6_some_sites(fl, sl):
+    """Option<Uuid> locals in the slice that are assigned Some(..): [(local, [(bb, rvalue)])]"""
+    opts = []
+    for l in sorted(sl.locals):
+        if not fl.local_ty(l).startswith("std::option::Option<uuid::Uuid>"):
+            continue
+        somes = []
+        for d in fl.defs.get(l, ()):
+            r = d[4] if d[0] == "assign" else None
+            for _ in range(6):
+                if r is None or r["k"] != "use":
+                    break
+                p = op_place(r["o"])
+                if p is None or p["p"]:
+                    break
+                ds = [x for x in fl.defs.get(p["l"], ()) if x[0] == "assign" and not x[3]]
+                r = ds[0][4] if len(ds) == 1 else None
+            if r is not None and r["k"] == "agg" and r.get("adt", "").endswith("option::Option") and r["variant"] == "Some":
+                somes.append((d[1], r))
+        if somes:
+            opts.append((l, somes))
+    return opts
+
+
 def rule_K6(F, R):
     R.begin("K6", "get_child_version serves a candidate only on positive evidence that it is on the chain: it equals the head, or it has children of its own (a leftover of a lost race has neither)")
     im, avb = cloud_add_version(F)
@@ -804,65 +855,110 @@ def rule_K6(F, R):
     st = sites[0][2]
     op = st["r"]["ops"][st["r"]["fields"].index("version_id")]
     sl = fl.slice_operand(op, stop=stop)
-    opts = []
-    for l in sorted(sl.locals):
-        if not fl.local_ty(l).startswith("std::option::Option<uuid::Uuid>"):
-            continue
-        somes = []
-        for d in fl.defs.get(l, ()):
-            r = d[4] if d[0] == "assign" else None
-            for _ in range(6):
-                if r is None or r["k"] != "use":
-                    break
-                p = op_place(r["o"])
-                if p is None or p["p"]:
-                    break
-                ds = [x for x in fl.defs.get(p["l"], ()) if x[0] == "assign" and not x[3]]
-                r = ds[0][4] if len(ds) == 1 else None
-            if r is not None and r["k"] == "agg" and r.get("adt", "").endswith("option::Option") and r["variant"] == "Some":
-                somes.append((d[1], r))
-        if somes:
-            opts.append((l, somes))
-    if not opts:
+    # (body, in_helper, [(local, somes)]): the selection may live in get_child_version itself or in a crate-local
+    # helper that returns the chosen Option<Uuid> (found through the value served, not by name)
+    work = []
+    opts = _k6_some_sites(fl, sl)
+    if opts:
+        work.append((b, False, opts))
+    else:
+        seen = set()
+        for (_bb, t) in sorted(sl.calls.items()):
+            hb = roles.callee_body(F, t)
+            if hb is None or hb["path"] in seen or is_reader(t) or is_children(t):
+                continue
+            seen.add(hb["path"])
+            hb = F.real_body(F.owner(hb["path"])) or hb
+            if "Option<uuid::Uuid>" not in (F.bodies.get(F.owner(hb["path"]), {}).get("sig_out") or fl.local_ty(0)) and "Option<uuid::Uuid>" not in flow_of(hb).local_ty(0):
+                continue
+            hfl = flow_of(hb)
+            hopts = _k6_some_sites(hfl, hfl.slice_local(0, stop=stop))
+            if hopts:
+                work.append((hb, True, hopts))
+    if not work:
         R.missing("K6", "the candidate-selection variable (an Option<Uuid> assigned Some(candidate))")
         return
+
+    def closure_head_test(ob, ofl, pop):
+        """the predicate closure compares its item with a captured value that derives from the head read"""
+        ps = ofl.slice_operand(pop, stop=stop)
+        for r_ in ps.roots:
+            if r_[0] != "closure" or r_[1] not in F.bodies:
+                continue
+            cb = F.bodies[r_[1]]
+            cfl = flow_of(cb)
+            bo = bool_origin(cfl, {"c": {"l": 0, "p": []}})
+            if not bo or bo[2]:
+                continue
+            if not any(re.search(r"PartialEq::eq$", x) for x in call_names(bo[1])):
+                continue
+            a0 = cfl.slice_operand(bo[1]["args"][0])
+            a1 = cfl.slice_operand(bo[1]["args"][1])
+            for x, y in ((a0, a1), (a1, a0)):
+                if not x.upvars() or not y.params():
+                    continue
+                for nm_ in x.upvars():
+                    for l_ in range(len(ob["locals"])):
+                        if ofl.local_name(l_) == nm_:
+                            hs = ofl.slice_local(l_, stop=stop)
+                            if any(q[0] == "call" and is_reader(cfg_of(ob).term(q[1])) for q in hs.roots):
+                                return True
+        return False
+
     n = 0
-    for (l, somes) in opts:
-        for (bb, r) in somes:
-            n += 1
-            evidence = None
-            for (s, labs) in guards_of(c, bb):
-                t = c.term(s)
-                if is_plumbing(t):
-                    continue
-                bo = bool_origin(fl, t["o"])
-                if not bo:
-                    continue
-                nm = call_names(bo[1])
-                te = switch_true_edges(c, s, bo[2])
-                on_true = all(lab in [e[2] for e in te] for lab in labs)
-                if any(re.search(r"PartialEq::(eq|ne)$", x) for x in nm):
-                    isne = any(x.endswith("::ne") for x in nm)
-                    equal_side = on_true != isne
-                    a0 = fl.slice_operand(bo[1]["args"][0], stop=stop)
-                    a1 = fl.slice_operand(bo[1]["args"][1], stop=stop)
-                    for x, y in ((a0, a1), (a1, a0)):
-                        head = any(r_[0] == "call" and is_reader(c.term(r_[1])) for r_ in x.roots)
-                        cand = any(r_[0] == "call" and is_children(c.term(r_[1])) for r_ in y.roots) and "parent_version_id" not in y.upvars()
-                        if head and cand and equal_side:
-                            evidence = "equals the head"
-                if any(x.endswith("::is_empty") for x in nm) and not on_true:
-                    a0 = fl.slice_operand(bo[1]["args"][0], stop=stop)
-                    if any(r_[0] == "call" and is_children(c.term(r_[1])) for r_ in a0.roots):
-                        # the listing must be of the candidate's children, not of the requested parent's
-                        ch = [c.term(r_[1]) for r_ in a0.roots if r_[0] == "call" and is_children(c.term(r_[1]))]
-                        argsl = fl.slice_operand(ch[0]["args"][1], stop=stop)
-                        if "parent_version_id" not in argsl.upvars():
-                            evidence = "has children"
-            if evidence:
-                R.ok("K6", "candidate accepted because it %s" % evidence, where(b, bb))
-            else:
-                R.violation("K6", subj, "candidate-served-without-evidence", "a candidate child is selected at %s without having been found equal to the head or to have children: a version object left by a writer that lost (or has not finished) the race can be served as a version" % loc(_bbsp2(b, bb)), where(b, bb))
+    for (wb, in_helper, wopts) in work:
+        wc = cfg_of(wb)
+        wfl = flow_of(wb)
+
+        def cand_ok(y):
+            if "parent_version_id" in y.upvars():
+                return False
+            if any(r_[0] == "call" and is_children(wc.term(r_[1])) for r_ in y.roots):
+                return True
+            # inside a helper the candidates arrive as a parameter
+            return in_helper and any(u != "self" for u in (y.upvars() | {str(p_) for p_ in y.params()}))
+
+        for (l, somes) in wopts:
+            for (bb, r) in somes:
+                n += 1
+                evidence = None
+                for (s, labs) in guards_of(wc, bb):
+                    t = wc.term(s)
+                    if is_plumbing(t):
+                        continue
+                    bo = bool_origin(wfl, t["o"])
+                    if not bo:
+                        continue
+                    nm = call_names(bo[1])
+                    te = switch_true_edges(wc, s, bo[2])
+                    on_true = all(lab in [e[2] for e in te] for lab in labs)
+                    if any(re.search(r"PartialEq::(eq|ne)$", x) for x in nm):
+                        isne = any(x.endswith("::ne") for x in nm)
+                        equal_side = on_true != isne
+                        a0 = wfl.slice_operand(bo[1]["args"][0], stop=stop)
+                        a1 = wfl.slice_operand(bo[1]["args"][1], stop=stop)
+                        for x, y in ((a0, a1), (a1, a0)):
+                            head = any(r_[0] == "call" and is_reader(wc.term(r_[1])) for r_ in x.roots)
+                            if head and cand_ok(y) and equal_side:
+                                evidence = "equals the head"
+                    if any(x.endswith("::is_empty") for x in nm) and not on_true:
+                        a0 = wfl.slice_operand(bo[1]["args"][0], stop=stop)
+                        if any(r_[0] == "call" and is_children(wc.term(r_[1])) for r_ in a0.roots):
+                            # the listing must be of the candidate's children, not of the requested parent's
+                            ch = [wc.term(r_[1]) for r_ in a0.roots if r_[0] == "call" and is_children(wc.term(r_[1]))]
+                            argsl = wfl.slice_operand(ch[0]["args"][1], stop=stop)
+                            if "parent_version_id" not in argsl.upvars():
+                                evidence = "has children"
+                if not evidence and r.get("ops"):
+                    # the candidate was picked by `find(|c| .. == head)`: the predicate is the evidence
+                    vs = wfl.slice_operand(r["ops"][0], stop=stop)
+                    for (pb, pop) in sorted(vs.predicates.items()):
+                        if any(x.endswith("Iterator::find") for x in call_names(wc.term(pb))) and closure_head_test(wb, wfl, pop) and cand_ok(wfl.slice_operand(wc.term(pb)["args"][0], stop=stop)):
+                            evidence = "equals the head (find predicate)"
+                if evidence:
+                    R.ok("K6", "candidate accepted because it %s" % evidence, where(wb, bb))
+                else:
+                    R.violation("K6", subj, "candidate-served-without-evidence", "a candidate child is selected at %s without having been found equal to the head or to have children: a version object left by a writer that lost (or has not finished) the race can be served as a version" % loc(_bbsp2(wb, bb)), where(wb, bb))
     R.floor("K6", "candidate selections examined", n, 2)
 
 
